@@ -17,19 +17,23 @@ def shape (s : St Nat) : String :=
   "read{" ++ ",".intercalate rk ++ "} amended=" ++ (if s.amended then "true" else "false") ++ " " ++ d ++
     " misses=" ++ toString s.misses
 
+/-- the stored nil pointer (a legal value of the map) is one more value for the model: token `nil`, shown `NIL` -/
+def nilTok : Nat := 4294967295
+def showV (v : Nat) : String := if v == nilTok then "NIL" else toString v
+
 def retStr : Ret Nat → String
   | .unit => "-"
   | .val none => "none"
-  | .val (some v) => s!"v={v}"
-  | .los v l => s!"los={v},{l}"
-  | .pairs l => "range[" ++ ",".intercalate (sortStrings (l.map fun (k, v) => DS.Hex.encode k ++ "=" ++ toString v)) ++ "]"
+  | .val (some v) => s!"v={showV v}"
+  | .los v l => s!"los={showV v},{l}"
+  | .pairs l => "range[" ++ ",".intercalate (sortStrings (l.map fun (k, v) => DS.Hex.encode k ++ "=" ++ showV v)) ++ "]"
   | .len n => s!"len={n}"
 
 def parseOp (t : String) : Option (Op Nat) :=
   match t.splitOn ":" with
   | ["L", k] => some (.load k)
-  | ["S", k, v] => v.toNat?.map (.store k)
-  | ["O", k, v] => v.toNat?.map (.loadOrStore k)
+  | ["S", k, v] => (if v == "nil" then some nilTok else v.toNat?).map (.store k)
+  | ["O", k, v] => (if v == "nil" then some nilTok else v.toNat?).map (.loadOrStore k)
   | ["D", k] => some (.loadAndDelete k)
   | ["X", k] => some (.delete k)
   | ["C"] => some .clear
